@@ -577,7 +577,15 @@ func (rw *respWalker) call(fr *rFrame, pt *rPath, c *ssa.Call, depth int) {
 	callee := com.StaticCallee()
 	if com.IsInvoke() {
 		// a method call on an interface value whose dynamic type is known on this path (the handler a middleware wraps)
-		if iv := rw.val(fr, com.Value); iv.k == rvIface && iv.dyn != nil {
+		iv := rw.val(fr, com.Value)
+		if !(iv.k == rvIface && iv.dyn != nil) {
+			// an in-repo interface with exactly one implementation in the repository (an injection seam such as
+			// batchProver, implemented by *ProvingSystem only): the call can only go there
+			if dyn := uniqueImplementer(rw.p, com.Value.Type()); dyn != nil {
+				iv = rval{k: rvIface, dyn: dyn}
+			}
+		}
+		if iv.k == rvIface && iv.dyn != nil {
 			target := rw.p.MethodOf(iv.dyn, com.Method.Name())
 			if target == nil {
 				if pt, ok := iv.dyn.(*types.Pointer); ok {
@@ -918,4 +926,40 @@ func checkResponsePathsOf(p *core.Program, r *core.Report, rw *respWalker, handl
 	r.Check(len(tableBad) == 0, ruleTable, name+": decision table over all paths", p.Pos(handler.Pos()),
 		fmt.Sprintf("non-POST ⇒ 405 before any step (%d paths); first failing step ⇒ its documented status/code and nothing after it (body %d, decode %d, prove %d, encode %d paths); otherwise 200 + marshalled proof (%d paths)", n405, kinds["body"], kinds["decode"], kinds["prove"], kinds["encode"], n200),
 		strings.Join(tableBad, "; "))
+}
+
+// uniqueImplementer: t is an interface declared in the repository and exactly one non-interface named type of the
+// repository's (non-test) packages implements it; that type (or its pointer) is returned.
+func uniqueImplementer(p *core.Program, t types.Type) types.Type {
+	n, ok := types.Unalias(t).(*types.Named)
+	if !ok || !inRepoObj(n.Obj()) {
+		return nil
+	}
+	iface, ok := n.Underlying().(*types.Interface)
+	if !ok || iface.NumMethods() == 0 {
+		return nil
+	}
+	var found []types.Type
+	for _, sp := range p.SSAPkgs {
+		sc := sp.Pkg.Scope()
+		for _, name := range sc.Names() {
+			tn, ok := sc.Lookup(name).(*types.TypeName)
+			if !ok || tn.IsAlias() {
+				continue
+			}
+			if _, isI := tn.Type().Underlying().(*types.Interface); isI {
+				continue
+			}
+			switch {
+			case types.Implements(tn.Type(), iface):
+				found = append(found, tn.Type())
+			case types.Implements(types.NewPointer(tn.Type()), iface):
+				found = append(found, types.NewPointer(tn.Type()))
+			}
+		}
+	}
+	if len(found) == 1 {
+		return found[0]
+	}
+	return nil
 }
